@@ -61,7 +61,7 @@ func classify(p *drive.Program) (nontrivial bool, classes []string) {
 			}
 			n := 0
 			for _, o := range s.Tx {
-				if o.Op != "get" {
+				if o.Op != "get" && o.Op != "last" {
 					touch(o.K)
 					n++
 				}
@@ -69,7 +69,7 @@ func classify(p *drive.Program) (nontrivial bool, classes []string) {
 			if n >= 2 {
 				txs++
 				for _, o := range s.Tx {
-					if o.Op != "get" {
+					if o.Op != "get" && o.Op != "last" {
 						txKeys[o.K] = true
 					}
 				}
